@@ -17,6 +17,7 @@ def finish (s : Script) : IO Unit := do
   | none, none => IO.println s!"S {s.idx} BAD no-cfg"
   | none, some (cfg, nkeys, mode) =>
     let evs := s.evs.toList
+    IO.println s!"S {s.idx} STAT kind={kindName cfg.kind} mode={mode} {(stat evs).show}"
     match l1 cfg nkeys evs with
     | none => IO.println s!"S {s.idx} L1 OK n={evs.length}"
     | some d => IO.println s!"S {s.idx} L1 DIFF {d.show}"
@@ -28,12 +29,12 @@ def finish (s : Script) : IO Unit := do
         | (some f, _) =>
           IO.println s!"S {s.idx} ACC FAIL inst={inst} ev={f.ev} props={",".intercalate f.props} {f.detail}"
     let tw : Option (String × Verdict) :=
-      if mode == "c18" then some ("C18", c18 evs)
+      if mode == "c18" then some ("C18", c18 cfg.kind evs)
       else if mode == "c19" then some ("C19", c19 cfg.kind evs)
       else if mode == "c20" then some ("C20", c20 evs)
       else none
     match tw with
-    | some (p, .ok n) => IO.println s!"S {s.idx} TWIN {p} OK n={n}"
+    | some (p, .ok n kf) => IO.println s!"S {s.idx} TWIN {p} OK n={n} kf={",".intercalate kf}"
     | some (p, .fail ev dt) => IO.println s!"S {s.idx} TWIN {p} FAIL ev={ev} {dt}"
     | none => pure ()
     match s.live with
